@@ -24,6 +24,26 @@ def _is_hashable(request_key) -> bool:
     return True
 
 
+class RequestOptionsError(IndexError):
+    """A request handler read a positional option that the request does not carry."""
+
+
+class _RequestOptions(list):
+    """
+    The options handed to a request handler.
+
+    Handlers read their options by position (``request[0]``, ``request[-1]``). Reading a position the request does not
+    carry raises :class:`RequestOptionsError` (an ``IndexError``), which ``RequestManager.__call__`` answers with a
+    ``failure`` response - any other exception, including an ``IndexError`` from anything but these options, propagates.
+    """
+
+    def __getitem__(self, index):
+        try:
+            return super().__getitem__(index)
+        except IndexError:
+            raise RequestOptionsError(f"the request carries {len(self)} option(s), option {index} was read") from None
+
+
 class RequestPermissionValidator(BaseModel):
     """
     Base class for request validators.
@@ -148,7 +168,15 @@ class RequestManager(BaseModel):
             _LOGGER.debug(f"Request {request} was denied due to insufficient permissions")
             return RequestResponse(status="failure", data={"reason": request_type.validator.fail_message})
 
-        return request_type.func(request_options, context)
+        if isinstance(request_type.func, RequestManager):
+            return request_type.func(request_options, context)
+
+        try:
+            return request_type.func(_RequestOptions(request_options), context)
+        except RequestOptionsError as e:
+            msg = f"Request {request} could not be processed because it lacks an option that '{request_key}' needs: {e}"
+            _LOGGER.debug(msg)
+            return RequestResponse(status="failure", data={"reason": msg})
 
     def add_request(self, name: str, request_type: RequestType) -> None:
         """
